@@ -995,14 +995,25 @@ func (st *state) closure(r *sim.Rand) {
 	var pf uint32
 	var perr error
 	if !sim.Guard("panic", func() { pf, perr = b.GetPingSlotFrequency(addr, time.Duration(r.Intn(1<<30))*time.Second) }) && perr == nil {
-		// (the data-rate of the ping slot: one of the band's own - the RX2
-		// default, a data-rate of one of its channels - or any of the field's 16 values)
+		// (the data-rate of the ping slot: one the band itself defines - its RX2
+		// default or an index of its data-rate table - is "produced by the
+		// band"; any other of the field's 16 values is the harness's invention:
+		// a refusal is not judged, what is accepted must still come back)
 		pingDR := uint8(r.Intn(16))
+		own := false
 		if d.RX2DataRate >= 0 && d.RX2DataRate <= 15 && r.Intn(2) == 0 {
-			pingDR = uint8(d.RX2DataRate)
+			pingDR, own = uint8(d.RX2DataRate), true
+		} else {
+			sim.Guard("panic", func() {
+				if _, err := b.GetDataRate(int(pingDR)); err == nil {
+					own = true
+				}
+			})
 		}
+		st.judgeEnc = own
 		st.cmd("PingSlotChannelReq", fmt.Sprintf("ping-slot frequency %d, data-rate %d", pf, pingDR),
 			&lorawan.MACCommand{CID: lorawan.PingSlotChannelReq, Payload: &lorawan.PingSlotChannelReqPayload{Frequency: pf, DR: pingDR}})
+		st.judgeEnc = true
 		st.cmd("BeaconFreqReq", fmt.Sprintf("ping-slot/beacon frequency %d", pf),
 			&lorawan.MACCommand{CID: lorawan.BeaconFreqReq, Payload: &lorawan.BeaconFreqReqPayload{Frequency: pf}})
 	}
